@@ -18,7 +18,7 @@ from checks import xref_common as C
 
 PROPERTY = "C14"
 LEVEL = "exploration"
-RULE = ("every body of <= 2 (thorough <= 3) items over a 149-item reference alphabet + 150 extended single items (all 28 field "
+RULE = ("every body of <= 2 (thorough <= 3) items over a 169-item reference alphabet + 160 extended single items (all 28 field "
         "opcodes), generated programs that touch the second DEX analysed with both add orders; every field access of the shipped "
         "DEX files.  Non-trivial = the body contains at least one field access; distinct by construction (sequence = index) / by "
         "(file, method, offset)")
